@@ -47,7 +47,21 @@ func exprStr(v ssa.Value, o exprOpts) string {
 	if r.o.depth == 0 {
 		r.o.depth = 14
 	}
+	r.markRoot(v)
 	return r.render(v, 0)
+}
+
+// markRoot: the function the rendered value belongs to is never inlined into itself.
+func (r *renderer) markRoot(v ssa.Value) {
+	if v == nil || r.o.inline == nil {
+		return
+	}
+	if f := v.Parent(); f != nil {
+		if r.inlining == nil {
+			r.inlining = map[*ssa.Function]bool{}
+		}
+		r.inlining[f] = true
+	}
 }
 
 type renderer struct {
@@ -223,6 +237,11 @@ func (r *renderer) renderInlined(call *ssa.Call, f *ssa.Function, idx int, d int
 	r.subst = saved
 	if !okAll || len(alts) == 0 {
 		return "", false
+	}
+	for _, a := range alts {
+		if strings.Contains(a, "alloc:") {
+			return "", false // the helper builds its result in local storage the renderer cannot express: keep the call
+		}
 	}
 	sort.Strings(alts)
 	if len(alts) == 1 {
